@@ -82,7 +82,7 @@ HELPER_TEXT = "def helper(a, z=3):\n    return a\n"
 
 
 TABLE_DOC = '"""\nModule notes\n\nname      value\nalpha         1\nbeta         22\n"""\n\n'
-LAYOUTS = ("unterminated", "ws_tail", "dunder_all", "name_string", "tabledoc")
+LAYOUTS = ("unterminated", "ws_tail", "dunder_all", "name_string", "tabledoc", "import_alias")
 
 
 def apply_layout(kind, txt, layout, name=None):
@@ -96,6 +96,8 @@ def apply_layout(kind, txt, layout, name=None):
         return '__all__ = ["%s"]\n\n' % defname + txt
     if layout == "name_string":
         return 'DEFAULT_TARGET = "%s"\n\n' % defname + txt
+    if layout == "import_alias":  # an import of the same name under an alias precedes the definition
+        return "from legacy.config import %s as _Legacy%s\n\n" % (defname, defname) + txt
     if layout == "tabledoc":  # module docstring with column-aligned text
         return TABLE_DOC + txt
     raise ValueError(layout)
